@@ -1,6 +1,7 @@
 package main
 
 import (
+	"runtime"
 	"context"
 	"errors"
 	"fmt"
@@ -363,10 +364,18 @@ func (ls *liveStore) apply(o sop) (res sresult) {
 		ls.streams = append(ls.streams, st)
 		return sresult{kind: "ROk"}
 	case opCloseWatch:
+		// close, then read the stream to its end: Go's select may still hand over events that were
+		// pending when Close landed; the model accepts any prefix of them. The stream must end.
 		if o.widx < len(ls.streams) {
-			_ = ls.streams[o.widx].Close(ctx)
+			st := ls.streams[o.widx]
+			_ = st.Close(ctx)
+			evs, ended := drainToEnd(st)
+			if !ended {
+				return sresult{kind: "RCrash", err: "the stream did not end within 3s after Close"}
+			}
+			return sresult{kind: "REvents", evs: evs}
 		}
-		return sresult{kind: "ROk"}
+		return sresult{kind: "REvents"}
 	case opDrain:
 		if o.widx < len(ls.streams) {
 			return sresult{kind: "REvents", evs: drain(ls.streams[o.widx])}
@@ -389,7 +398,35 @@ func drain(st store.Stream) []event {
 		ok := st.Next(ctx)
 		cancel()
 		if !ok {
-			return evs
+			// confirm the silence once more (a loaded machine may not have scheduled the pump yet)
+			runtime.Gosched()
+			ctx, cancel = context.WithTimeout(context.Background(), 80*time.Millisecond)
+			ok = st.Next(ctx)
+			cancel()
+			if !ok {
+				return evs
+			}
+		}
+		var m types.Map
+		if err := st.Decode(&m); err != nil || m == nil {
+			evs = append(evs, event{op: "undecodable"})
+			continue
+		}
+		op, _ := m.Get(str("op")).(types.String)
+		evs = append(evs, event{op: op.String(), id: m.Get(str("id"))})
+	}
+}
+
+// drainToEnd reads a closed stream until Next reports its end (3s deadline per event).
+func drainToEnd(st store.Stream) ([]event, bool) {
+	var evs []event
+	for {
+		ctx, cancel := context.WithTimeout(context.Background(), 3*time.Second)
+		ok := st.Next(ctx)
+		expired := ctx.Err() != nil
+		cancel()
+		if !ok {
+			return evs, !expired
 		}
 		var m types.Map
 		if err := st.Decode(&m); err != nil || m == nil {
